@@ -709,6 +709,31 @@ impl C07 {
                 let mut y = a(&v.iter().map(|t| t + 1).collect::<Vec<_>>());
                 NaturalArray::<K>::scatter_sub_assign(&mut y, &a(&rev), &a(&vec![1; n]));
                 ensure(y.0 == *v, || format!("scatter_sub_assign on {:?}", v))?;
+                // scatter forms with pairwise different right-hand sides along two index patterns (reversed, and a
+                // stride-3 walk that is a permutation when 3 does not divide n): position i must meet value i
+                let walk: Vec<usize> = (0..n).map(|k| (3 * k + 1) % n.max(1)).collect();
+                for ixs in [&rev, &walk] {
+                    let rhs: Vec<usize> = (0..n).map(|k| k + 1).collect();
+                    let mut y = a(&vec![1000; n]);
+                    NaturalArray::<K>::scatter_sub_assign(&mut y, &a(ixs), &a(&rhs));
+                    let mut e = vec![1000usize; n];
+                    for k in 0..n {
+                        e[ixs[k]] -= rhs[k];
+                    }
+                    ensure(y.0 == e, || format!("scatter_sub_assign(ixs {:?}, rhs {:?}) = {:?}", ixs, rhs, y.0))?;
+                    let distinct = (0..n).all(|p| (0..p).all(|q| ixs[p] != ixs[q]));
+                    if distinct {
+                        let mut y = a(&vec![0; n]);
+                        Array::<K, usize>::scatter_assign(&mut y, &a(ixs), a(&rhs));
+                        let mut e = vec![0usize; n];
+                        for k in 0..n {
+                            e[ixs[k]] = rhs[k];
+                        }
+                        ensure(y.0 == e, || format!("scatter_assign(ixs {:?}, rhs {:?}) = {:?}", ixs, rhs, y.0))?;
+                        let g = Array::<K, usize>::gather(&a(&rhs), &ixs[..]);
+                        ensure(g.0 == ixs.iter().map(|&k| rhs[k]).collect::<Vec<_>>(), || format!("gather(1..n, {:?})", ixs))?;
+                    }
+                }
                 ensure(Array::<K, usize>::get_range(&x, ..) == &v[..] && (n == 0 || Array::<K, usize>::get_range(&x, 1..) == &v[1..]) && (n == 0 || Array::<K, usize>::get_range(&x, ..=n - 1) == &v[..]), || format!("get_range on {:?}", v))?;
                 Ok(n >= 5)
             }
